@@ -1,4 +1,6 @@
 import OntVerif.Proofs.Codec
+import OntVerif.Proofs.Sink
+import OntVerif.Gen.SinkWrites
 /-!
 # C18 — Primitive binary codec round-trips, is canonical and never panics
 
@@ -111,6 +113,67 @@ theorem C18_rt_fixed (d : Bytes) (pre rest : Bytes) (hlen : (pre ++ d ++ rest).l
   unfold nextFixed
   rw [nextBytes_append pre d rest hlen]
   simp
+
+/-! ### The sink's buffer management (`Model/Sink.lean`)
+
+The writers above are pure appends. The real sink writes into recycled memory: after `Reset()`, over a caller's buffer
+with spare capacity, after `BackUp`, and inside `WriteVarUint` (which obtains 9 bytes and gives back up to 8). -/
+section Sink
+open OntVerif.Model.Sink OntVerif.Proofs.Sink
+
+/-- **The output depends only on the operations, not on what the memory held**: for every sink state (any backing
+memory contents, any capacity, any visible length) and every sequence of writes, `BackUp`s and `Reset`s, the visible
+bytes of the sink-with-memory model are those of the pure model started from the currently visible bytes; a `BackUp`
+beyond the start fails in both. -/
+theorem C18_sink_memory_independent (s : Sink) (w : s.wf) (ops : List Op) :
+    (runMem s ops).map Sink.bytes = runPure s.bytes ops := run_spec s w ops
+
+/-- two sinks that show the same bytes behave the same, whatever lies behind (dirty or zeroed, large or small capacity) -/
+theorem C18_sink_same_visible (s₁ s₂ : Sink) (w₁ : s₁.wf) (w₂ : s₂.wf) (h : s₁.bytes = s₂.bytes) (ops : List Op) :
+    (runMem s₁ ops).map Sink.bytes = (runMem s₂ ops).map Sink.bytes := by
+  rw [run_spec s₁ w₁, run_spec s₂ w₂, h]
+
+/-- after a `Reset` the earlier use of the sink is invisible: junk, `Reset`, script = script on an empty sink -/
+theorem C18_sink_reset (s : Sink) (w : s.wf) (junk ops : List Op) (hj : (runMem s junk).isSome) :
+    (runMem s (junk ++ .reset :: ops)).map Sink.bytes = runPure [] ops := by
+  rw [run_spec s w]
+  replace hj : (runPure s.bytes junk).isSome := by
+    rw [← run_spec s w]; cases h : runMem s junk <;> simp_all
+  generalize s.bytes = out at hj ⊢
+  induction junk generalizing out with
+  | nil => rfl
+  | cons op r ih =>
+    simp only [List.cons_append, runPure] at hj ⊢
+    cases hp : stepPure out op with
+    | none => simp [hp] at hj
+    | some o => simp only [hp] at hj ⊢; exact ih o hj
+
+/-- **Structural fact, regenerated from `common/zero_copy_sink.go` on every run**: on every control path of every
+`Write*` method, the region obtained from `NextBytes` is either filled by `copy` from a source of exactly that length,
+or every index below `obtained - backedUp` is assigned; methods without a region of their own only call other `Write*`
+methods. (This is the premise under which `Model/Sink.lean` stores whole regions.) -/
+def pathCovers (p : OntVerif.Gen.SinkWrites.Path) : Bool :=
+  !p.unknown && decide (p.backup ≤ p.obtained) &&
+  (if p.hasRegion then p.all || (List.range (p.obtained - p.backup)).all (fun i => p.written.contains i)
+   else !p.calls.isEmpty && p.calls.all (fun c => OntVerif.Gen.SinkWrites.methods.contains c))
+
+theorem C18_sink_writes_cover : ∀ p ∈ OntVerif.Gen.SinkWrites.paths, pathCovers p = true := by decide
+
+theorem C18_sink_writes_all_methods :
+    ∀ m ∈ OntVerif.Gen.SinkWrites.methods, ∃ p ∈ OntVerif.Gen.SinkWrites.paths, p.method = m := by decide
+
+/-- the writers the models know are there -/
+theorem C18_sink_writes_expected :
+    ∀ m ∈ ["WriteBool", "WriteByte", "WriteUint8", "WriteUint16", "WriteUint32", "WriteUint64", "WriteBytes", "WriteVarUint",
+      "WriteVarBytes", "WriteAddress", "WriteHash", "WriteI128"], m ∈ OntVerif.Gen.SinkWrites.methods := by decide
+
+example : (⟨[0xff, 0xff, 0xff], 0⟩ : Sink).wf := by unfold Sink.wf; decide
+example : (runMem ⟨[0xff, 0xff, 0xff], 0⟩ [.bool false, .bool true, .varuint 7, .bool false]).map Sink.bytes
+    = some [0, 1, 7, 0] := by decide
+example : (runMem ⟨[], 0⟩ [.u64 0xffffffffffffffff, .reset, .bool false, .u8 9, .backup 1, .bool false]).map Sink.bytes
+    = some [0, 0] := by decide
+example : runMem ⟨[1, 2], 1⟩ [.backup 2] = none := by decide
+end Sink
 
 /-! ### Non-vacuity: the hypotheses are met by concrete, non-trivial states -/
 example : (⟨[0xfd, 0xfd, 0x00, 7], 0⟩ : Src).wf := by unfold Src.wf two64; decide
